@@ -139,7 +139,7 @@ def corpus(ctx):
         out.append(("%s+pad%d" % (rel, upto), {"isa": isa, "arch": arch, "text": lcd_par.pad_text(text, isa, upto, rng)}))
         if ctx.tier == "thorough" or rng.random() < 0.4:
             out.append((rel, {"isa": isa, "arch": arch, "text": text}))
-    ngen = ctx.n(6, 40)
+    ngen = ctx.n(6, 24)
     archs = {"x86": ["zen2", "zen1", "icx", "zen3"], "aarch64": ["a64fx", "tx2", "n1"]}
     cands = []
     for g in range(ngen * 3):
@@ -155,11 +155,12 @@ def corpus(ctx):
     counts = run_batches(ctx, [[{"op": "count", "spec": s, "cap": 200000}] for _, s in cands], timeout=120, jobs=12)
     kept = 0
     for (name, spec), res in zip(cands, counts):
-        c = res[0].get("count")
+        c, w = res[0].get("count"), res[0].get("work")
         if c is None:
             ctx.log("count failed for %s: %s" % (name, res[0].get("error")))
             continue
-        if 20 <= c <= ctx.n(2500, 20000) and kept < ngen:
+        # work = size of the DFS trees all_simple_paths walks: bounds the time of one search (<= ~5 s sequential)
+        if 20 <= c <= ctx.n(2500, 6000) and w <= ctx.n(60000, 100000) and kept < ngen:
             out.append((name + "-paths%d" % c, spec))
             kept += 1
     return out
@@ -273,7 +274,7 @@ def differential(ctx, kernels):
         batches.append(jobs)
         meta.append((name, spec, cfg, thr))
     t0 = time.time()
-    results = run_batches(ctx, batches, timeout=600, jobs=6)
+    results = run_batches(ctx, batches, timeout=1500, jobs=6)
     ctx.log("ran %d LCD searches on %d kernels in %.1fs" % (sum(len(b) for b in batches), len(batches), time.time() - t0))
     shards = []
     shard_meta = []
@@ -322,7 +323,7 @@ def differential(ctx, kernels):
             if r["timed_out"]:
                 ctx.violation("untimed-run-flagged", "%s W=%d timeout=-1 but timed_out is set" % (name, W), rp)
             h = hashlib.sha1(json.dumps(r["paths"]).encode()).hexdigest()
-            if h not in orders and len(orders) < ctx.n(3, 5):
+            if h not in orders and len(orders) < ctx.n(3, 4):
                 orders[h] = r["paths"]
         ctx.coverage.setdefault("arrival_orders", {})[name] = len(orders)
         ctx.sample({"kernel": name, "lines": seq["klen"], "paths": seq["n_paths"], "lcds": len(seq["lcd"]),
@@ -331,7 +332,7 @@ def differential(ctx, kernels):
         if not seq["lat_exact"]:
             ctx.coverage.setdefault("not_modelled_latency", []).append(name)
             continue
-        if seq["n_paths"] > ctx.n(2500, 6000):
+        if seq["n_paths"] > ctx.n(2500, 4000):
             ctx.coverage.setdefault("too_many_paths_for_coq", []).append(name)
             continue
         defs = []
